@@ -196,11 +196,15 @@ class TransformationPerformer:
       ]
     consumers = []
     for original_op_id in instruction.consumers:
-      consumers.append(
-          self._original_op_id_map[transformation_inst.subgraph_id][
-              original_op_id
-          ]
-      )
+      # -1 stands for the graph output, not for an operator: keep it as is.
+      if original_op_id == -1:
+        consumers.append(-1)
+      else:
+        consumers.append(
+            self._original_op_id_map[transformation_inst.subgraph_id][
+                original_op_id
+            ]
+        )
     trans_info = self._transformation_registration[instruction.transformation](
         transformation_utils.TransformationInput(
             instruction.tensor_id,
